@@ -22,7 +22,7 @@ from contracts import tools as TL, sql as SQ
 UNITS += [TL.unit_tokenize_without_space(), TL.unit_generated_tokens(), TL.unit_token_text(), TL.unit_validated_python_name(), R.unit_code_for_string_token(),
           FT.unit_choice_init(), FT.unit_constant_init(), FT.unit_integer_init(), FT.unit_datetime_init(), FT.unit_decimal_init(), FT.unit_text_init(),
           CK.unit_is_unique_init(), CK.unit_distinct_count_init(), F.unit_field_name_index(), F.unit_set_example(), D.unit_validated_character(),
-          IF.unit_add_check_row(), IF.unit_add_field_format_row(), IF.unit_add_field_format(), IF.unit_cid_init(), IF.unit_field_names_and_lengths(),
+          IF.unit_add_check_row(), IF.unit_add_check(), IF.unit_add_field_format_row(), IF.unit_add_field_format(), IF.unit_cid_init(), IF.unit_field_names_and_lengths(),
           VIO.unit_reader_init(), VIO.unit_validate_rows(), VIO.unit_writer_write_rows(), VIO.unit_writer_close(), VIO.unit_raw_rows(), VIO.unit_padded_fixed_row(), VIO.unit_module_rows_validate(),
           RW.unit_fixed_row_writer_init(), RW.unit_delimited_row_writer_init(), RW.unit_row_writer_close(), RW.unit_row_writer_write_rows(), RW.unit_xlsx_row_writer_write_row(), RW.unit_xlsx_row_writer_write_rows(),
           APP.unit_set_options(), APP.unit_process(), APP.unit_set_cid_from_path(), APP.unit_app_init(), SQ.unit_assert_is_valid_ansi_type(), SQ.unit_other_sql_ansi_types(), SQ.unit_integer_sql_ansi_type()]
